@@ -119,6 +119,16 @@ type ESpreadLen struct {
 }
 type ETemplate struct{ Parts []Expr }
 
+// expression forms whose only purpose is to keep partially evaluated state (operands, references) alive across a
+// yield / await inside them
+type EObjLit struct{ A, B Expr } // ({ a: A, b: B }).a + ({...}).b  rendered as a single literal: value A + B
+type EArrLit struct{ A, B Expr } // [A, B][1] : value B
+type EPropSet struct{ E Expr }   // (_o.p = E, _o.p) : value E ; the reference _o.p is taken before E runs
+type ECompound struct {          // (v += E) : the old value of v is read before E runs
+	Var string
+	E   Expr
+}
+
 // built-ins that consume an iterable and must close it on failure
 type EArrayFrom struct { // Array.from(ITER, fn).length ; Fn == "" : no mapping function
 	Iter Expr
@@ -247,7 +257,7 @@ func printProgram(pr *Program) string {
 		}
 		p.line("%s %s(%s) {", kw, f.Name, strings.Join(f.Params, ", "))
 		p.ind++
-		p.line("var _d = 0;")
+		p.line("var _d = 0, _o = { p: 0 };")
 		if len(f.Locals) > 0 {
 			p.line("var %s = 0;", strings.Join(f.Locals, " = 0, "))
 		}
@@ -480,6 +490,14 @@ func exprJS(e Expr) string {
 		return fmt.Sprintf("new Set(%s).size", exprJS(e.Iter))
 	case *EMapSize:
 		return fmt.Sprintf("new Map(%s).size", exprJS(e.Iter))
+	case *EObjLit:
+		return fmt.Sprintf("(function(o) { return o.a + o.b; })({ a: %s, b: %s })", exprJS(e.A), exprJS(e.B))
+	case *EArrLit:
+		return fmt.Sprintf("[%s, %s][1]", exprJS(e.A), exprJS(e.B))
+	case *EPropSet:
+		return fmt.Sprintf("(_o.p = %s, _o.p)", exprJS(e.E))
+	case *ECompound:
+		return fmt.Sprintf("(%s += %s)", e.Var, exprJS(e.E))
 	case *ETemplate:
 		var sb strings.Builder
 		sb.WriteString("`")
